@@ -203,6 +203,14 @@ def _worker(items, base):
                                               "title": "subroutine parameter %s %s an argument of type %s although assignable=%s" % (
                                                   b, "accepts" if acc else "rejects", a, asg),
                                               "a": str(a), "b": str(b), "ia": i, "ib": j, "features": {"why": "callsite"}})
+                if norm(a)[0] != "ref" and norm(b)[0] != "ref":
+                    acc2 = method_call_accepts(a, b)
+                    cnt["call_sites"] = cnt.get("call_sites", 0) + 1
+                    if acc2 is not None and acc2 != asg:
+                        out["violations"].append({"driver": "callsite", "size": 1,
+                                                  "title": "InnerTxnBuilder.MethodCall with parameter type %s %s an argument of type %s although assignable=%s" % (
+                                                      b, "accepts" if acc2 else "rejects", a, asg),
+                                                  "a": str(a), "b": str(b), "ia": i, "ib": j, "features": {"why": "callsite-itxn"}})
         cnt["states"] = cnt.get("states", 0) + 1
         cnt["transitions"] = cnt.get("transitions", 0) + len(U)
     if items and base % 97 == 0:
@@ -224,6 +232,21 @@ def call_site_accepts(a, b):
     try:
         sub = pt.Subroutine(pt.TealType.none)(f)
         sub(inst)
+        return True
+    except (pt.TealInputError, pt.TealTypeError):
+        return False
+
+
+def method_call_accepts(a, b):
+    """does InnerTxnBuilder.MethodCall accept an ABI value of type a for a parameter declared as b?"""
+    try:
+        inst = a.new_instance()
+        sig = "f(%s)void" % str(b)
+        sdkabi.Method.from_signature(sig)
+    except Exception:
+        return None
+    try:
+        pt.InnerTxnBuilder.MethodCall(app_id=pt.Int(1), method_signature=sig, args=[inst])
         return True
     except (pt.TealInputError, pt.TealTypeError):
         return False
